@@ -42,6 +42,19 @@ ELEMS["str"] = (np.str_, 8)
 ELEMS["c64"] = (np.complex64, 14)
 SIZE_LIFT = {"str", "bf16", "c64"}   # arguments of these types enter a program through Size (element count), not Cast
 SYM = {"N": 2, "M": 3, "K": 1}
+# names a user may give a symbolic dimension: ordinary ones, names that LOOK like the `unk__<n>` parameters ONNX
+# shape inference invents (spox strips those from *inferred* types only), near misses, digits, non-ASCII, spaces,
+# and "" (an empty dim_param is ONNX's way of writing "unknown")
+DIM_NAMES = ["N", "M", "K", "N", "unk__0", "unk__batch", "UNK__1", "unk_1", "unk__", "", "0", "12", "\u6279", "\u00fc_len", "dim with space"]
+
+
+def _dim_str(d):
+    return "?" if d is None or d == "" else str(d)
+
+
+def _inferred_dim(d):
+    """What spox's type inference leaves of a dimension of an *operator output*: ONNX-invented names go."""
+    return None if isinstance(d, str) and (d == "" or d.startswith("unk__")) else d
 SCALAR = {"e": "f32", "d": []}
 
 
@@ -58,6 +71,15 @@ def covered_code_changes(ck):
         from translator import build_front_ir
 
         info = build_front_ir.generate()
+        try:
+            from translator import front_facts
+
+            ff = front_facts.generate()
+            ck.cov["generated_recursive_functions"] = ff["recursive"]
+            ck.cov["generated_intro_facts"] = ff["intro_facts"]
+            ck.cov["generated_process_dependent_calls"] = ff["process_dependent"]
+        except Exception as e:  # noqa: BLE001
+            ck.broken("translator", "translator/front_facts.py could not read src/spox", f"{type(e).__name__}: {e}")
         ck.cov["generated_build_statements"] = info["ir"]
         pinned = json.loads((Path(__file__).parent / "pinned_c03c12_digests.json").read_text())
         changed = sorted(k for k in set(pinned) | set(info["digests"]) if pinned.get(k) != info["digests"].get(k))
@@ -77,7 +99,7 @@ def ty_str(ty) -> str:
         return "seq(" + ty_str(ty["seq"]) + ")"
     if "opt" in ty:
         return "opt(" + ty_str(ty["opt"]) + ")"
-    return f"{ELEMS[ty['e']][1]}:[" + ",".join("?" if d is None else str(d) for d in ty["d"]) + "]"
+    return f"{ELEMS[ty['e']][1]}:[" + ",".join(_dim_str(d) for d in ty["d"]) + "]"
 
 
 def proto_ty_str(tp) -> str:
@@ -111,7 +133,7 @@ def gen_type(rng: random.Random, tensor_only=False, basic=False):
         return {"opt": gen_type(rng, True, True) if rng.random() < 0.7 else {"seq": gen_type(rng, True, True)}}
     e = rng.choice([x for x in ELEMS if not (basic and x in SIZE_LIFT)])
     rank = rng.choice([0, 1, 1, 2, 2, 3])
-    return {"e": e, "d": [rng.choice([0, 1, 1, 2, 3, "N", "M", "K", None, None]) for _ in range(rank)]}
+    return {"e": e, "d": [rng.choice([0, 1, 1, 2, 3, None, None] + [rng.choice(DIM_NAMES)] * 3) for _ in range(rank)]}
 
 
 def feed_for(ty, rng: random.Random):
@@ -119,7 +141,7 @@ def feed_for(ty, rng: random.Random):
         return [feed_for(ty["seq"], rng) for _ in range(rng.randrange(1, 4))]
     if "opt" in ty:
         return feed_for(ty["opt"], rng) if rng.random() < 0.6 else None
-    shape = [SYM[d] if isinstance(d, str) else (2 if d is None else d) for d in ty["d"]]
+    shape = [SYM.get(d, 2) if isinstance(d, str) else (2 if d is None else d) for d in ty["d"]]
     dt = ELEMS[ty["e"]][0]
     n = int(np.prod(shape)) if shape else 1
     if ty["e"] == "str":
@@ -133,10 +155,12 @@ def feed_for(ty, rng: random.Random):
     return np.array(vals, dtype=dt).reshape(shape)
 
 
-DEP_KEYS = ("a", "b", "init", "c", "m", "cnd", "xs")   # input edges of a node
+VALUE_KINDS = ("lift", "neg", "bin", "tcast", "cust", "rmax", "add", "mul", "fun", "if", "loop", "scan",
+               "ucast", "ureshape", "intro", "intros", "introsib", "linl")
+DEP_KEYS = ("a", "b", "init", "c", "m", "cnd", "xs", "of")   # input edges of a node
 SUB_KEYS = ("then", "else", "body")                      # subgraph attributes of a node
 ROLE_TYPES = [{"e": "f32", "d": []}, {"e": "f32", "d": []}, {"e": "bool", "d": []}, {"e": "bool", "d": [1]}, {"e": "i64", "d": [1]},
-              {"e": "f32", "d": [2]}, {"e": "f32", "d": ["N"]}, {"e": "f32", "d": [None]}, {"e": "f32", "d": [0]}]
+              {"e": "f32", "d": [2]}, {"e": "f32", "d": ["N"]}, {"e": "f32", "d": [None]}, {"e": "f32", "d": [0]}, {"e": "f32", "d": ["unk__batch"]}]
 
 
 def role_typed(ty) -> bool:
@@ -159,6 +183,24 @@ def custom_model(j: int):
     g = h.make_graph([h.make_node("Twice", ["x"], ["z"], domain=dom, name="cust")], f"cust{j}",
                      [h.make_tensor_value_info("x", T.FLOAT, [])], [h.make_tensor_value_info("z", T.FLOAT, [])])
     return h.make_model(g, opset_imports=[h.make_opsetid("", 17), h.make_opsetid(dom, ver)], ir_version=8)
+
+
+LONG = "StatefulPartitionedCall/model/feature_column_transformer/dense_features/embedding_lookup_sparse/"
+
+
+def long_name_model():
+    """z = 2*x + 2 with tf2onnx-style internal value and node names of 120-150 characters, so that the
+    names spox generates for them (`Inline_k__<name>`) are far longer than any length limit one might set."""
+    from onnx import TensorProto as T
+    from onnx import helper as h
+
+    t, c = LONG + "MatMul/ReadVariableOp/resource:0__" + "t" * 30, LONG + "BiasAdd/ReadVariableOp:0__" + "c" * 40
+    g = h.make_graph(
+        [h.make_node("Mul", ["x", c], [t], name=LONG + "Mul_node_" + "n" * 30),
+         h.make_node("Add", [t, c], ["z"], name=LONG + "Add_node_" + "m" * 30)], "long_names",
+        [h.make_tensor_value_info("x", T.FLOAT, [])], [h.make_tensor_value_info("z", T.FLOAT, [])],
+        initializer=[h.make_tensor(c, T.FLOAT, [], [2.0])])
+    return h.make_model(g, opset_imports=[h.make_opsetid("", 17)], ir_version=8)
 
 
 class _Gen:
@@ -193,6 +235,18 @@ class _Gen:
                 nodes.append(nd)
                 vis_any.append(nd["id"])
                 continue
+            elif r < 0.09 and vis_sc:
+                # Vars made by the internal helpers: every one of them is an output of an `_Introduce` node of its own
+                kind = rng.choice(["ucast", "ureshape", "intro", "intros", "linl"])
+                if kind == "intros":
+                    nd = self.new({"k": "intros", "a": rng.choice(vis_sc), "b": rng.choice(vis_sc)})
+                    nodes.append(nd)
+                    vis_sc.append(nd["id"])
+                    nd = self.new({"k": "introsib", "of": nd["id"]})   # the second output of the same node
+                elif kind == "intro":
+                    nd = self.new({"k": "intro", "a": rng.choice(vis_sc), "b": rng.choice(vis_sc)})
+                else:
+                    nd = self.new({"k": kind, "a": rng.choice(vis_sc)})
             elif r < 0.25 and vis_any:
                 nd = self.new({"k": "lift", "a": rng.choice(vis_any)})
             elif r < 0.30:
@@ -336,6 +390,114 @@ def gen_program(rng: random.Random, n_args=None, size=None, max_depth=3, domains
     return prog
 
 
+def gen_chain_program(rng: random.Random, n: int, in_body: bool):
+    """A dependency chain of `n` sequential operators (Neg) from an argument to the output — flat, or
+    inside the then-branch of an If — plus an unused argument. ids in creation order."""
+    g = _Gen(rng, 1)
+    top = [g.new({"k": "arg", "ty": gen_type(rng, True, True)}), g.new({"k": "arg", "ty": dict(SCALAR)}),
+           g.new({"k": "arg", "ty": gen_type(rng, True)})]
+    top.append(g.new({"k": "lift", "a": top[0]["id"]}))
+    start = top[-1]["id"]
+
+    def chain(first):
+        nodes, cur = [], first
+        for _ in range(n):
+            nodes.append(g.new({"k": "neg", "a": cur}))
+            cur = nodes[-1]["id"]
+        return nodes, cur
+
+    if in_body:
+        nodes, last = chain(start)
+        els = [g.new({"k": "const", "v": 1.0})]
+        top.append(g.new({"k": "if", "a": start, "b": top[1]["id"],
+                          "then": {"formals": [], "nodes": nodes, "res": [last]},
+                          "else": {"formals": [], "nodes": els, "res": [els[0]["id"]]}}))
+    else:
+        nodes, last = chain(start)
+        top.extend(nodes)
+    return {"nodes": top, "n": g.n, "chain": n}
+
+
+def chain_requests(prog):
+    """Valid and missing-input requests for a chain program, both flag values."""
+    out = prog["nodes"][-1]["id"]
+    args = [n["id"] for n in prog["nodes"] if n["k"] == "arg"]
+    used = sorted(free_args(prog, [out]))
+    reqs = []
+    for drop in (False, True):
+        reqs.append({"inputs": [[f"x{j}", a] for j, a in enumerate(args)], "outputs": [["y", out]], "drop": drop, "kind": "chain"})
+        reqs.append({"inputs": [[f"x{j}", a] for j, a in enumerate(args) if a != used[0]], "outputs": [["y", out]],
+                     "drop": drop, "kind": "chain-missing"})
+    return reqs
+
+
+def gen_wide_program(rng: random.Random, n_args=120):
+    """Size in breadth: `n_args` arguments (a sixth of them unused), one value per used argument, all of
+    them summed; requests with > 100 inputs and > 50 outputs (names x0..x119: `x100` < `x2` as strings)."""
+    g = _Gen(rng, 1)
+    top = [g.new({"k": "arg", "ty": gen_type(rng)}) for _ in range(n_args)]
+    args = [n["id"] for n in top]
+    used = [a for a in args if rng.random() < 0.85]
+    lifts = []
+    for a in used:
+        top.append(g.new({"k": "lift", "a": a}))
+        lifts.append(top[-1]["id"])
+    acc = lifts[0]
+    for l in lifts[1:]:
+        top.append(g.new({"k": "add", "a": acc, "b": l}))
+        acc = top[-1]["id"]
+    prog = {"nodes": top, "n": g.n, "wide": n_args}
+    reqs = []
+    for drop in (False, True):
+        order = list(args)
+        rng.shuffle(order)
+        outs = [["y", acc]] + [[f"o{j}", l] for j, l in enumerate(rng.sample(lifts, min(60, len(lifts))))]
+        reqs.append({"inputs": [[f"x{j}", a] for j, a in enumerate(order)], "outputs": outs, "drop": drop, "kind": "wide"})
+        miss = rng.choice(used)
+        reqs.append({"inputs": [[f"x{j}", a] for j, a in enumerate(order) if a != miss], "outputs": outs[: rng.randrange(1, 5)],
+                     "drop": drop, "kind": "wide-missing"})
+    # outputs that need only a few of the many inputs
+    few = rng.sample(lifts, 3)
+    reqs.append({"inputs": [[f"x{j}", a] for j, a in enumerate(args)], "outputs": [[f"r{j}", l] for j, l in enumerate(few)],
+                 "drop": True, "kind": "wide-few"})
+    return prog, reqs
+
+
+def gen_long_name_program(rng: random.Random, depth=None):
+    """If nested `depth` (5-7) deep with values at the bottom (their generated names carry the whole
+    chain of branch prefixes: > 80 characters), and an inlined model with very long internal names."""
+    depth = depth or rng.randrange(5, 8)
+    g = _Gen(rng, depth)
+    top = [g.new({"k": "arg", "ty": dict(SCALAR)}), g.new({"k": "arg", "ty": dict(SCALAR)}),
+           g.new({"k": "arg", "ty": gen_type(rng, True, True)})]
+    a, b = top[0]["id"], top[1]["id"]
+    top.append(g.new({"k": "lift", "a": top[2]["id"]}))
+    l = top[-1]["id"]
+    top.append(g.new({"k": "linl", "a": rng.choice([a, l])}))
+    li = top[-1]["id"]
+
+    def nest(d):
+        if d == 0:
+            n1 = g.new({"k": rng.choice(["add", "mul"]), "a": rng.choice([a, b, l]), "b": rng.choice([a, b, li])})
+            n2 = g.new({"k": rng.choice(["rmax", "neg", "linl"]), "a": n1["id"]})
+            return {"formals": [], "nodes": [n1, n2], "res": [n2["id"]]}
+        inner_then, inner_else = nest(d - 1), {"formals": [], "nodes": [], "res": []}
+        c = g.new({"k": "const", "v": float(d)})
+        inner_else = {"formals": [], "nodes": [c], "res": [c["id"]]}
+        if rng.random() < 0.5:
+            inner_then, inner_else = inner_else, inner_then
+        nd = g.new({"k": "if", "a": rng.choice([a, b]), "b": rng.choice([b, l]), "then": inner_then, "else": inner_else})
+        return {"formals": [], "nodes": [nd], "res": [nd["id"]]}
+
+    blk = nest(depth)
+    top.extend(blk["nodes"])
+    top.append(g.new({"k": "add", "a": blk["res"][0], "b": li}))
+    prog = {"nodes": top, "n": g.n}
+    req = {"inputs": [["a", a], ["b", b], ["data", top[2]["id"]]], "outputs": [["y", top[-1]["id"]], ["z", li]],
+           "drop": rng.random() < 0.5, "kind": "long-names"}
+    return prog, req
+
+
 def walk(nodes):
     """All nodes, nested ones included, in id order of appearance."""
     for nd in nodes:
@@ -345,7 +507,20 @@ def walk(nodes):
         yield nd
 
 
+_IDX = []  # [(prog, n, idx)] of the last few programs (index() is called per entry; chains have thousands of nodes)
+
+
 def index(prog):
+    for p_, n_, i_ in _IDX:
+        if p_ is prog and n_ == prog["n"]:
+            return i_
+    idx = _index(prog)
+    _IDX.append((prog, prog["n"], idx))
+    del _IDX[:-6]
+    return idx
+
+
+def _index(prog):
     idx = {}
 
     def rec(nodes):
@@ -373,51 +548,41 @@ def formal_nodes(prog):
 def abstract_type(prog, i):
     nd = index(prog).get(i) or formal_nodes(prog)[i]
     if nd["k"] == "tcast":
-        return {"e": "f32", "d": list(abstract_type(prog, nd["a"])["d"])}
+        return {"e": "f32", "d": [_inferred_dim(d) for d in abstract_type(prog, nd["a"])["d"]]}
     return nd["ty"] if nd["k"] in ("arg", "init", "formal") else dict(SCALAR)
 
 
 # ----------------------------------------------------------------------------- dependence (the property's own definition)
 def free_args(prog, out_ids):
-    """Top-level arguments on which the outputs depend, directly or through any depth of body."""
-    idx = index(prog)
-    fm = formal_nodes(prog)
-    memo = {}
+    """Top-level arguments on which the outputs depend, directly or through any depth of body.
+    One pass in creation order (no recursion along dependency chains: programs may be thousands of nodes deep)."""
+    sets = {f: frozenset([f]) for f in formal_nodes(prog)}
+    empty = frozenset()
 
     def of_block(blk):
         s = set()
         for r in blk["res"]:
-            s |= of(r)
+            s |= sets[r]
         return s - set(blk["formals"])
 
-    def of(i):
-        if i in memo:
-            return memo[i]
-        if i in fm:
-            memo[i] = {i}
-            return memo[i]
-        nd = idx[i]
-        k = nd["k"]
+    for nd in walk(prog["nodes"]):
+        k, i = nd["k"], nd["id"]
         if k == "arg":
-            s = {i}
+            sets[i] = frozenset([i])
         elif k in ("const", "init", "junk"):
-            s = set()
-        elif k in ("lift", "neg", "bin", "tcast", "cust", "rmax", "add", "mul", "fun", "if", "loop", "scan"):
-            s = set()
-            for key in DEP_KEYS:          # every operand, control-flow operands included
-                if key in nd:
-                    s |= of(nd[key])
-            for key in SUB_KEYS:          # every body, minus its own formals
-                if key in nd:
-                    s |= of_block(nd[key])
+            sets[i] = empty
+        elif k in VALUE_KINDS:
+            deps = [sets[nd[key]] for key in DEP_KEYS if key in nd]     # every operand, control-flow operands included
+            blocks = [of_block(nd[key]) for key in SUB_KEYS if key in nd]  # every body, minus its own formals
+            if len(deps) == 1 and not blocks:
+                sets[i] = deps[0]
+            else:
+                sets[i] = frozenset().union(*deps, *blocks)
         else:
             raise ValueError(k)
-        memo[i] = s
-        return s
-
     out = set()
     for o in out_ids:
-        out |= of(o)
+        out |= sets[o]
     return out
 
 
@@ -579,6 +744,21 @@ def realize(prog, op=None):
                 (env[i],) = function(nd["f"])(env[nd["a"]], env[nd["b"]])
             elif k == "cust":
                 env[i] = spox.inline(custom_model(nd["j"]))(x=env[nd["a"]])["z"]
+            elif k == "linl":
+                env[i] = spox.inline(long_name_model())(x=env[nd["a"]])["z"]
+            elif k in ("ucast", "ureshape", "intro", "intros", "introsib"):
+                from spox import _internal_op as io_  # documented-internal helpers
+
+                if k == "ucast":
+                    env[i] = io_.unsafe_cast(env[nd["a"]], spox.Tensor(np.float32, ()))
+                elif k == "ureshape":
+                    env[i] = io_.unsafe_reshape(env[nd["a"]], ())
+                elif k == "intro":
+                    env[i] = io_.intro(env[nd["a"]], env[nd["b"]])
+                elif k == "intros":
+                    env[i], env[("sib", i)] = io_.intros(env[nd["a"]], env[nd["b"]])
+                else:
+                    env[i] = env.pop(("sib", nd["of"]))
             elif k == "bin":
                 import spox.opset.ai.onnx.ml.v3 as ml
 
@@ -657,6 +837,14 @@ def evaluate(prog, feeds, out_ids):
             v = np.float32(a_ * b_ + a_) if nd["f"] == 0 else np.float32(-a_ + b_)
         elif k == "cust":
             raise ValueError("custom-domain operators have no reference semantics")
+        elif k == "linl":
+            v = np.float32(np.float32(2.0) * ev(nd["a"], env) + np.float32(2.0))
+        elif k in ("ucast", "ureshape", "intros"):
+            v = ev(nd["a"], env)
+        elif k == "intro":
+            v = ev(nd["b"], env)
+        elif k == "introsib":
+            v = ev(idx[nd["of"]]["b"], env)
         elif k == "bin":
             v = np.float32(1.0 if ev(nd["a"], env) > 0.5 else 0.0)
         elif k == "if":
@@ -753,6 +941,14 @@ def _gen_request(rng: random.Random, prog, *, allow_bad=True, allow_dup=False):
         # or an argument that is passed straight through)
         for _ in range(rng.choice([1, 1, 2])):
             outs.insert(rng.randrange(len(outs) + 1), rng.choice(outs))
+    pairs = [(n["of"], n["id"]) for n in top if n["k"] == "introsib"]
+    singles = [n["id"] for n in top if n["k"] in ("ucast", "ureshape", "intro")]
+    r_ = rng.random()
+    if pairs and r_ < 0.3:
+        # exactly the outputs of one `_Introduce` node, in order (or: among others)
+        outs = list(rng.choice(pairs)) + ([rng.choice(pool)] if rng.random() < 0.3 else [])
+    elif singles and r_ < 0.3:
+        outs = [rng.choice(singles)]          # a helper-made Var requested alone
     used = sorted(free_args(prog, outs))
     listed = list(args)
     kind = "plain"
